@@ -13,7 +13,7 @@ import (
 func init() {
 	register(Property{
 		ID: "C13",
-		Explanation: "Decided statically: R1 every store into the name->object tables (Types/Constants/Functions) is dominated by a package-scope test on the stored object (obj.Parent() == pkg.Scope(), or objects taken from Scope().Names()/Lookup); R2 the methods map is keyed - at every store and lookup - by the declared named type ((*types.Named).Origin()), so generic receivers are grouped under the declaration; R3 in Load's registering closure no path leads from the construction of a package record (which reads the universe for its imports) to a recursive registration, every call of the closure is dominated by an absence test on the universe for the same package, and the record is stored after construction; R4 MethodsOf(T,false) keeps a method iff its receiver type is not a pointer; R5 the receiver classification and the filter look through aliases. R6 the read accessors of a loaded package are plain reads of what Load stored, and SourceDir derives the directory from Dir and Path of one and the same module value; R7 methods of the loaded package / universe write no receiver state after Load, except the reviewed idempotent SourceDir memo. R3 also: every iteration of the loop over a package's imports registers the import unless the universe already has it; R8 no caller in the library stores into, deletes from or clears a map obtained from a method of a loaded package or the universe. R7 also: no append into, and no element store through, a slice that shares its backing array with the loaded record (reslices, locals with several definitions). NOT decided: value-level equality of the tables with Scope().Names() for every loaded package; SourceDir()/LocateInPackage agreement with the file system (derived from Module.Dir, an environment fact).",
+		Explanation: "Decided statically: R1 every store into the name->object tables (Types/Constants/Functions) is dominated by a package-scope test on the stored object (obj.Parent() == pkg.Scope(), or objects taken from Scope().Names()/Lookup); R2 the methods map is keyed - at every store and lookup - by the declared named type ((*types.Named).Origin()), so generic receivers are grouped under the declaration; R3 in Load's registering closure no path leads from the construction of a package record (which reads the universe for its imports) to a recursive registration, every call of the closure is dominated by an absence test on the universe for the same package, and the record is stored after construction; R4 MethodsOf(T,false) keeps a method iff its receiver type is not a pointer; R5 the receiver classification and the filter look through aliases. R6 the read accessors of a loaded package are plain reads of what Load stored, and SourceDir derives the directory from Dir and Path of one and the same module value; R7 methods of the loaded package / universe write no receiver state after Load, except the reviewed idempotent SourceDir memo. R3 also: every iteration of the loop over a package's imports registers the import unless the universe already has it; R8 no caller in the library stores into, deletes from or clears a map obtained from a method of a loaded package or the universe. R7 also: no append into, and no element store through, a slice that shares its backing array with the loaded record (reslices, locals with several definitions). R6 also: every return of the SourceDir computation is the join, the module's Dir, the empty string, the memo or the computed value. R7 also covers methods of types embedding the package record and mutating methods of sync.Map/sync.Pool fields. NOT decided: value-level equality of the tables with Scope().Names() for every loaded package; SourceDir()/LocateInPackage agreement with the file system (derived from Module.Dir, an environment fact).",
 		Assumptions: commonAssumptions,
 		Run:         runC13,
 	})
@@ -184,37 +184,63 @@ func c13R6(p *core.Program, r *core.Report) {
 			if t := info.TypeOf(ret.Results[0]); t == nil || !isBasicKind(t, types.String) {
 				return true
 			}
-			e, _ := core.Resolve(info, ff.Root().Body, ret.Results[0])
-			e = ast.Unparen(e)
-			good := false
-			switch x := e.(type) {
-			case *ast.BasicLit:
-				good = constStrIs(info, x, "")
-			case *ast.StarExpr:
-				good = true // the memo
-			case *ast.SelectorExpr:
-				good = x.Sel.Name == "Dir" && core.NamedTypeName(info.TypeOf(x.X)) == "golang.org/x/tools/go/packages.Module"
-			case *ast.CallExpr:
-				switch name := core.CalleeName(info, x); {
-				case name == "path/filepath.Join":
-					good = true // its shape is judged above
-				default:
+			var allowed func(e ast.Expr, depth int) bool
+			allowed = func(e ast.Expr, depth int) bool {
+				if depth > 4 {
+					return false
+				}
+				e, _ = core.Resolve(info, ff.Root().Body, e)
+				e = ast.Unparen(e)
+				switch x := e.(type) {
+				case *ast.BasicLit:
+					return constStrIs(info, x, "")
+				case *ast.StarExpr:
+					return true // the memo
+				case *ast.SelectorExpr:
+					return x.Sel.Name == "Dir" && core.NamedTypeName(info.TypeOf(x.X)) == "golang.org/x/tools/go/packages.Module"
+				case *ast.CallExpr:
+					if core.CalleeName(info, x) == "path/filepath.Join" {
+						return true // its shape is judged above
+					}
 					// the function's own closure (immediately invoked, or called through a local) or an unexported helper of it
 					if _, isLit := ast.Unparen(x.Fun).(*ast.FuncLit); isLit {
-						good = true
-					} else if v := core.VarOf(info, x.Fun); v != nil && !v.IsField() {
-						good = true
-					} else if fn := core.CalleeFunc(info, x); fn != nil {
+						return true
+					}
+					if v := core.VarOf(info, x.Fun); v != nil && !v.IsField() {
+						return true
+					}
+					if fn := core.CalleeFunc(info, x); fn != nil {
 						if hf := p.FuncOfObj(fn); hf != nil && inSD[hf] {
-							good = true
+							return true
 						}
 					}
+				case *ast.Ident:
+					if tv, has := info.Types[x]; has && tv.Value != nil {
+						return constStrIs(info, x, "")
+					}
+					// a local assigned on several branches: every value it can have
+					if v := core.VarOf(info, x); v != nil && !v.IsField() {
+						defs := core.DefsOf(info, ff.Root().Body, v)
+						if len(defs) == 0 {
+							return false
+						}
+						for _, d := range defs {
+							if d.Rhs == nil {
+								if d.Kind == "var" {
+									continue // zero value ""
+								}
+								return false
+							}
+							if d.Index >= 0 || !allowed(d.Rhs, depth+1) {
+								return false
+							}
+						}
+						return true
+					}
 				}
-			case *ast.Ident:
-				if tv, has := info.Types[x]; has && tv.Value != nil {
-					good = constStrIs(info, x, "")
-				}
+				return false
 			}
+			good := allowed(ret.Results[0], 0)
 			r.Check(good, rule, ff, "SourceDir answers only the module-relative directory: return "+core.ExprStr(ret.Results[0]), ret.Pos(), "the join, the module's Dir, \"\", the memo or the computed value",
 				"SourceDir can answer a directory that is not derived from the module's Dir and the package path (for instance the directory of a file position, which follows //line directives): generated files are written there and LocateInPackage no longer finds the package's own files")
 			return true
